@@ -226,6 +226,15 @@ class Interp(object):
         r = h(node, st, self)
         if r is not NotImplemented:
           return r
+      # bool(x): the truth of x when every path agrees on it
+      if isinstance(node.func, ast.Name) and node.func.id == 'bool' and len(node.args) == 1 \
+          and not node.keywords:
+        try:
+          truths = {t_ for t_, _s in self.cond(node.args[0], st.copy())}
+        except AnalysisError:
+          truths = set()
+        if len(truths) == 1 and None not in truths:
+          return Const(bool(truths.pop()))
       # frozenset([...]) / set(...) / tuple(...) / list(...) of a literal: the
       # same membership table as the literal itself
       if isinstance(node.func, ast.Name) and node.func.id in ('frozenset', 'set', 'tuple', 'list') \
